@@ -45,9 +45,21 @@ class SetMutator(CollectionAttrMutator):
             raise ValueError(
                 f"Attempted to add an invalid item `{repr(item)}` to `{self.attr_spec.qualified_name}`. Expected item of type `{type_label(self.attr_spec.item_type)}`."
             )
-        if index is not MISSING and replace:
-            self.collection.discard(index)
-        self.collection.add(item)
+        if index is MISSING or not replace:
+            self.collection.add(item)
+            return
+        # Replacing a member takes it out first, and adding the replacement can
+        # still fail (a key function that raises, an item without a key, a key
+        # clash under `enforce_item_equivalence`): leave the set as it was.
+        members = list(self.collection)
+        self.collection.discard(index)
+        try:
+            self.collection.add(item)
+        except BaseException:
+            self.collection.clear()
+            for member in members:
+                self.collection.add(member)
+            raise
 
     def add_item(self, item, *, value_or_index=MISSING, replace=True, attrs=None):  # pylint: disable=arguments-differ
         return self._mutate_collection(
